@@ -261,6 +261,50 @@ struct Extractor {
     return true;
   }
 
+  // A structural view of an initialiser whose leaves are not all integers: nested lists of integers, null pointers and address
+  // constants (&var[i].field ... as {addr: var, path: [index | field name, ...]}), evaluated by the compiler's constant evaluator.
+  json::Value initTree(const Expr *E, unsigned &budget) {
+    if (!E || budget == 0) return nullptr;
+    budget--;
+    const Expr *S = E->IgnoreParenImpCasts();
+    if (const auto *IL = dyn_cast<InitListExpr>(S)) {
+      json::Array a;
+      for (const Expr *Sub : IL->inits()) a.push_back(initTree(Sub, budget));
+      json::Object o;
+      o["list"] = std::move(a);
+      if (const auto *AT = C.getAsConstantArrayType(IL->getType())) o["n"] = (int64_t)AT->getSize().getZExtValue();
+      return std::move(o);
+    }
+    if (isa<ImplicitValueInitExpr>(S)) return json::Object{{"zero", true}};
+    Expr::EvalResult R;
+    if (E->isValueDependent() || !E->EvaluateAsRValue(R, C, true)) return nullptr;
+    const APValue &V = R.Val;
+    if (V.isInt()) return json::Object{{"int", apint(V.getInt())}};
+    if (V.isLValue()) {
+      if (V.isNullPointer() || !V.getLValueBase()) return json::Object{{"int", (int64_t)0}};
+      const ValueDecl *B = V.getLValueBase().dyn_cast<const ValueDecl *>();
+      if (!B) return nullptr;
+      json::Object o;
+      o["addr"] = B->getNameAsString();
+      json::Array path;
+      if (V.hasLValuePath()) {
+        QualType T = B->getType();
+        for (const APValue::LValuePathEntry &PE : V.getLValuePath()) {
+          if (const ArrayType *AT = C.getAsArrayType(T)) {
+            path.push_back((int64_t)PE.getAsArrayIndex());
+            T = AT->getElementType();
+          } else if (const auto *FD = dyn_cast_or_null<FieldDecl>(PE.getAsBaseOrMember().getPointer())) {
+            path.push_back(FD->getNameAsString());
+            T = FD->getType();
+          } else return nullptr;
+        }
+      }
+      o["path"] = std::move(path);
+      return std::move(o);
+    }
+    return nullptr;
+  }
+
   json::Value initOf(const VarDecl *D) {
     const Expr *I = D->getInit();
     if (!I) return nullptr;
@@ -279,6 +323,9 @@ struct Extractor {
       json::Array a;
       unsigned budget = 1 << 16;
       if (flattenInit(IL, a, budget)) { o["ints"] = std::move(a); return std::move(o); }
+      unsigned b2 = 1 << 14;
+      json::Value t = initTree(IL, b2);
+      if (!(t.kind() == json::Value::Null)) { o["tree"] = std::move(t); return std::move(o); }
       return nullptr;
     }
     llvm::APSInt V;
